@@ -288,6 +288,20 @@ func (w *TimingWheel) moveTask(task baseEntry) {
 	}
 
 	pos, circle := w.getPositionAndCircle(task.delay)
+	if (timer.pos <= w.tickedPos) != (pos <= w.tickedPos) || pos == timer.pos {
+		// 新旧槽位分处当前指针两侧（或重合）时，原地改 circle/diff 会早或晚整整一圈：
+		// 作废旧条目，在目标槽位放入携带 circle 的新条目。
+		timer.item.removed = true
+		newItem := &timingEntry{
+			baseEntry: task,
+			value:     timer.item.value,
+			circle:    circle,
+		}
+		w.slots[pos].PushBack(newItem)
+		w.setTimerPosition(pos, newItem)
+		return
+	}
+
 	if pos > timer.pos {
 		timer.item.circle = circle
 		timer.item.diff = pos - timer.pos
